@@ -483,6 +483,16 @@ def totality_cases(ctx):
         for b in ends:
             for e in ('%s + %s', 'string(%s + %s)', '-(%s + %s)', 'abs(%s + %s)', '(%s + %s) = %s', '(%s + %s) < %s', '(%s + %s).years', '(%s + %s).months', '%s - %s', 'string(-(%s) + %s)'):
                 add('ym-ends', e.replace('%s', '\x00').replace('\x00', a, 1).replace('\x00', b, 1).replace('\x00', a))
+    # the number of months between two dates / date-times that lie as far apart as FEEL years allow (seeded change C05_j: the difference of the years was
+    # multiplied by 12 in 32 bits), positional and named, both orders, and the same through date arithmetic
+    far = ['date("999999999-12-31")', 'date("-999999999-01-01")', 'date("2020-01-01")', 'date("178958991-06-15")', 'date("-178954951-06-15")', 'date and time("999999999-12-31T23:59:59")',
+           'date and time("-999999999-01-01T00:00:00")', 'date("0001-01-01")']
+    for a in far:
+        for b in far:
+            add('ym-far', 'years and months duration(%s, %s)' % (a, b))
+            add('ym-far', 'string(years and months duration(from: %s, to: %s))' % (a, b))
+            add('ym-far', 'years and months duration(%s, %s).years' % (a, b))
+            add('ym-far', '%s + years and months duration(%s, %s)' % (a, a, b))
     for op in G.BINOPS + ['between']:
         for _ in range(ctx.pick(60, 3000)):
             a, b, c = rng.choice(pool), rng.choice(pool), rng.choice(pool)
